@@ -3,6 +3,7 @@ CONSTANTS
   NSample = 150
   Seed = 1
   CoverStride = 1
+  FullDepth3 = TRUE
 INVARIANTS Evaluable OuterLaw LatticeLaw
 POSTCONDITION EmitCases
 CHECK_DEADLOCK FALSE
